@@ -272,7 +272,7 @@ CHECKS = {
          "on the real table comparing the whole slot array and object identities; the real FNV path is bound the other "
          "way round: every Vm::new_gc_obj_string call logs its probe result and TraceIntern.tla must explain each event. StrIdent.tla "
          "enumerates pairs of string PRODUCERS inside programs (literal, concatenation at any split, slice at any byte offset, interpolation, split piece, "
-         "replace, from_utf8, character-wise rebuild) x lengths around 8 / 16 / 32 / 64 bytes and around 255 / 256 / 257, 1024, 4097 (thorough: up to 65537) x misalignments x same-or-one-byte-different contents; "
+         "replace, from_utf8, character-wise rebuild) x lengths around 8 / 16 / 32 / 64 bytes and around 255 / 256 / 257, 1024, 4097 (thorough: more lengths between 127 and 4097) x misalignments x same-or-one-byte-different contents; "
          "==, reversed == and a map lookup must say exactly 'same bytes'.",
     note="Trusts TLC and the harness; full-hash collisions reach the real code only through the hook wrapper "
          "verif_intern::Table (same get/insert code with a caller-chosen hash).",
